@@ -6,6 +6,7 @@ mod p_c09;
 mod p_c20;
 mod p_dom;
 mod p_get;
+mod p_hist;
 mod p_num;
 mod p_ser;
 mod sval;
@@ -20,7 +21,9 @@ fn main() {
         eprintln!("usage: vharness run <prop> <tier> <seed> <outdir> | tables <file>");
         std::process::exit(2);
     }
-    entry::silence_panics();
+    if std::env::var("VERIF_TRACE").is_err() {
+        entry::silence_panics();
+    }
     match args[1].as_str() {
         "run" => {
             let (prop, tier, seed, dir) = (&args[2], &args[3], args[4].parse::<u64>().unwrap(), &args[5]);
@@ -29,6 +32,8 @@ fn main() {
                 "C02" => p_c02::run(&mut out, tier, seed),
                 "C09" => p_c09::run(&mut out, tier, seed),
                 "C20" => p_c20::run(&mut out, tier, seed),
+                "C15" => p_hist::run_c15(&mut out, tier, seed),
+                "C16" => p_hist::run_c16(&mut out, tier, seed),
                 "C05" => p_ser::run(&mut out, tier, seed),
                 "C07" => p_num::run_c07(&mut out, tier, seed),
                 "C08" => p_num::run_c08(&mut out, tier, seed),
